@@ -132,6 +132,10 @@ class Prov:
                 return a << b
             return None
         if t[0] == 'cast':
+            if t[1][0] == 'const' and len(t[1]) > 2 and str(t[1][2]).strip() in ('false', 'const false'):
+                return 0
+            if t[1][0] == 'const' and len(t[1]) > 2 and str(t[1][2]).strip() in ('true', 'const true'):
+                return 1
             return self.fold_int(t[1], depth - 1)
         if t[0] == 'phi':
             vals = {self.fold_int(x, depth - 1) for x in t[1]}
